@@ -75,6 +75,14 @@ CHECKS = {
             "Every Assert terminator and panicking call site (441 sites, 402 bodies) is either shown infeasible in all analysed contexts, reported with a "
             "concrete witness, or allow-listed with a reason; unanalysed bodies with obligations fail closed; cost-function contexts constant and bounded; "
             "RefCell re-entrancy excluded by reachability. Dev-profile MIR (overflow checks on) covers both build configurations.", "4 C15"),
+    "C11": ("abstract interpretation of the ELF parsers over an abstract cursor and of elf::load with loops generalised at their headers (typed havoc)",
+            "Every Ehdr/Phdr/Shdr/Sym field is the big-endian integer at its ELF32 offset; PT_LOAD <=> p_type 1; a copy happens exactly for PT_LOAD headers "
+            "from file[p_offset..+p_filesz) to DRAM H'416900+p_vaddr, no other store; GOT: only for .got, entry i read big-endian at H'416900+sh_addr+4i, "
+            "base added once, written back to the same bytes, sh_size/4 iterations, ER5. Whole-file byte presence / zero fill follow from these (stated).", "4 C11"),
+    "C12": ("abstract interpretation of elf::load with loops generalised at their headers; layout formulas compared as BDD bit-vectors",
+            "ER2 = base; image end only from headers tested PT_LOAD (max of p_paddr+p_memsz); ER7 = align4up(base+image end+size)-8; argument block at "
+            "align4up(stack end+88); ER0 = vector length after inserting prog.elf at 0; ER1; argc+1 slots; per-argument slot/byte/NUL steps; exit address "
+            "= st_value+base only for ___exit via the sh_link string table. In-DRAM bounds and the word count itself are not decided.", "4 C12"),
 }
 
 checks = []
